@@ -9,14 +9,14 @@ var ruleAddenda = map[string]string{
 	"C04": "wsjson documents followed by white space (the value is complete before the message is: a transport end inside the trailing white space is still a cut message).",
 	"C05": "WI: inbound message whose header arrives in two pieces while writers write; race units also over reader-vs-CloseNow with an inbound message in flight.",
 	"C06": "schedx modes orders-closed-underneath (the connection is closed by the peer / a context, then CloseNow and Close) and simultaneous (both ends send their Close frame before reading the other's).",
-	"C07": "seqx part isolation: ordered pairs of handshakes (8 x 8 offers x 3 server modes): A's negotiated parameters are not changed by B's handshake.",
+	"C07": "seqx part isolation: ordered pairs of handshakes (8 x 8 offers x 3 server modes): A's negotiated parameters are not changed by B's handshake; part isolation-client: the same for two Dials with one DialOptions value (5 x 5 scripted responses x 3 modes).",
+	"C14": "Offers with duplicate valued parameters; exchange: the second message streamed in 700-byte chunks (several Write calls per message in every takeover mode). Part isolation-client: two Dials with one DialOptions value (5 x 5 scripted responses x 3 modes).",
 	"C08": "Part flood: up to 20000 control or empty frames before the message; the call depth at transport reads must not grow with the number of frames received. Framing many-empty-frags.",
 	"C09": "Families neverReads (peer window closed; abandoned streaming writer whose chunk leaves the write buffer 0..7 bytes short of full; idle; reader) and slowThenData (peer reads nothing for 4 s, sends one message at 8 s to a blocked reader, then silence).",
 	"C10": "cc family also with a transport window fitted to the first frame of a streamed message plus a Ping, and a redundant Close of the latest message's writer after its context was cancelled.",
 	"C11": "Keys followed by non-alphabet bytes and keys whose base64 decoding stops early.",
 	"C12": "Hosts one character away from the pattern (different-t, different-g), IPv6 literals, forwarding headers (X-Forwarded-Host, Forwarded) naming the origin's host.",
 	"C13": "Extension parameters on several header lines, a lone quote as max_window_bits value, duplicate parameters whose first occurrence carries a value.",
-	"C14": "Offers with duplicate valued parameters; exchange: the second message streamed in 700-byte chunks (several Write calls per message in every takeover mode).",
 	"C15": "During-close family: a Ping of the peer that arrives after the endpoint's own Close frame was written is still answered; variant pingback: the peer sends a Ping carrying the payload of the local Ping (never completes it).",
 	"C18": "Op W0 (Write of an empty slice: same deadline / closed answers as a non-empty one); close reasons of 122 and 123 bytes map to io.EOF for 1000/1001.",
 	"C19": "Streams cut after a complete non-final fragment (an error that wraps io.EOF is not the end of the message).",
